@@ -8,7 +8,11 @@ announcement must be restricted to peers for which `Doc::is_visible_to(peer)` of
 that repository holds: either the peer iterator is filtered by a closure that calls
 it, or the send is dominated by a branch that established it (or established that
 the announcement is not a refs announcement).
-Inventory: the local inventory is populated only from public repositories."""
+Inventory: the local inventory is populated only from public repositories. 
+A filter closure may return true only because the document said so or because the
+announcement is not a refs announcement (never because a lookup failed); the
+inventory announcement built at start-up uses the routing table only after the
+private repositories were removed from it."""
 import re
 
 from .. import cfg, rules, flow
